@@ -128,6 +128,21 @@ def scenarios(tier):
     for codec, mode in ((0, "fread"), (1, "fread"), (1, "mmap"), (6, "buffer"), (0, "mmap")):
         sc.append(f"readbig {d} {codec} bBi 1 30 8 {mode}")
         sc.append(f"batchbig {d} {codec} bBi 1 30 8 {mode}")
+    # every capacity doubling of the writer's per-column arrays (8 -> 16 -> 32 -> 64: file_writer.c add_column_internal)
+    for ncols in (9, 17, 33):
+        sc.append(f"write {d} 0 {('iLdfBoxnm' * 4)[:ncols]} 1 1 4 abort")
+    sc.append(f"write {d} 0 {('iLdfBoxnm' * 4)[:17]} 1 1 4 close")
+    # continuation after a failed carquet_writer_new_row_group: retry it and go on / just close; when all later calls
+    # report success the file must read back to exactly the row groups written (3 row groups, several columns)
+    for codec in (0, 1):
+        sc.append(f"write {d} {codec} iLDb 3 2 12 retry")
+        sc.append(f"write {d} {codec} iLDb 3 2 12 close")
+    # ... with column chunks of several KB, so that the row-group buffer also grows while a LATER column is appended, and
+    # with the default page size, so that the pages are closed (compressed, checksummed) by the row-group finalize itself
+    sc.append(f"write {d} 0 iLDb 3 2 300 retry")
+    sc.append(f"write {d} 0 iLDb 3 2 300 close")
+    sc.append(f"write {d} 1 iLDb 3 2 300 retryP")
+    sc.append(f"write {d} 6 iLDb 3 2 300 closeP")
     # enough column chunks for the writer's and the reader's metadata arena to need a second block
     sc.append(f"write {d} 0 iLdiLdiLdiLd 20 1 3 abort")
     for codec in CODECS:
@@ -374,6 +389,10 @@ def evaluate(rep, scs, base, sites, lines, owner, out, model=None):
                 verdict = "leak"
                 what = (f"request {k} ({via} request at {f}:{line}, {fn}) fails -> memory is leaked "
                         f"(calls {kv.get('calls')[-120:]}): {kv.get('san', '-')[:300]}")
+            elif kv.get("rbc") == "0":
+                verdict = "ok-wrong-effect"
+                what = (f"request {k} ({via} request at {f}:{line}, {fn}) fails in carquet_writer_new_row_group; every call AFTER the failed one "
+                        f"reports success (calls {kv.get('calls')[-90:]}) but the file does not read back to the rows that were written")
             elif kv.get("ok") == "1":
                 if kv.get("eff") == bkv.get("eff") and kv.get("fsize") == bkv.get("fsize"):
                     verdict = "ok-same-effect"
